@@ -1614,3 +1614,92 @@ Proof.
     destruct (IH (fst (step lg st (OSetCallbacks r0 f)))) as [IH1 IH2].
     rewrite step_callbacks_strip in IH1, IH2. split; assumption.
 Qed.
+
+(* ====================================================================== *)
+(* fractional count thresholds: a SHARE of the colony                       *)
+
+(* t * n <= nP  <->  t <= nP / n   (n > 0) *)
+Lemma share_form : forall t n nP, (0 < n)%Z ->
+  (t * inject_Z n <= inject_Z nP <-> t <= inject_Z nP / inject_Z n).
+Proof.
+  intros t n nP Hn.
+  assert (P : 0 < inject_Z n) by (change 0 with (inject_Z 0); rewrite <- Zlt_Qlt; exact Hn).
+  split; intro H.
+  - apply Qle_shift_div_l; assumption.
+  - assert (E : inject_Z nP == inject_Z nP / inject_Z n * inject_Z n).
+    { field. intro Z0. rewrite Z0 in P. apply (Qlt_irrefl 0). exact P. }
+    rewrite E. apply Qmult_le_compat_r; [exact H | apply Qlt_le_weak; exact P].
+Qed.
+
+(* with a custom threshold t in (0,1) the count criterion is: at least one
+   permit, and the permit votes are at least the share t of the colony *)
+Lemma count_criterion_fraction : forall t n nP, 0 < t -> t < 1 ->
+  (count_criterion (Some t) n nP <-> (1 <= nP)%Z /\ t * inject_Z n <= inject_Z nP).
+Proof.
+  intros t n nP P L. unfold count_criterion. split.
+  - intros [_ [H _]]. apply H; assumption.
+  - intro H. repeat split; intros; try tauto; exfalso; lra.
+Qed.
+
+Lemma fraction_share_proof : forall cfg votes t,
+  c_strategy cfg = ThresholdCount -> c_custom cfg = Some t -> 0 < t -> t < 1 ->
+  (is_reached (aggregate false cfg votes) = true <->
+   (c_min_voters cfg <= count_kind Permit votes + count_kind Block votes)%Z /\
+   (1 <= count_kind Permit votes)%Z /\
+   t <= inject_Z (count_kind Permit votes) / inject_Z (len votes)).
+Proof.
+  intros cfg votes t S C P L.
+  assert (V : valid_thr cfg) by (unfold valid_thr; rewrite C; lra).
+  rewrite (crit_threshold_proof cfg votes V S), C, (count_criterion_fraction t _ _ P L).
+  pose proof (count_partition votes) as CP.
+  pose proof (count_kind_nonneg Block votes). pose proof (count_kind_nonneg Abstain votes).
+  pose proof (count_kind_nonneg Defer votes).
+  destruct (Z_lt_le_dec 0 (len votes)) as [N | N].
+  - rewrite (share_form t _ _ N). tauto.
+  - split; intros [_ [A _]]; exfalso; lia.
+Qed.
+
+Lemma emergency_share_proof : forall et votes, 0 < et -> et < 1 ->
+  (is_permit (aggregate false (emergency_cfg et) votes) = true <->
+   (1 <= count_kind Permit votes)%Z /\
+   et <= inject_Z (count_kind Permit votes) / inject_Z (len votes)).
+Proof.
+  intros et votes P L. rewrite <- reached_iff_permit_proof.
+  rewrite (fraction_share_proof (emergency_cfg et) votes et eq_refl eq_refl P L).
+  cbn [emergency_cfg c_min_voters].
+  pose proof (count_kind_nonneg Block votes).
+  split; [tauto |]. intros [A B]. split; [lia | tauto].
+Qed.
+
+(* the head-count a share stands for is the LEAST count (>= 1) that covers the
+   share of the colony: never one voter too low, never one too high *)
+Lemma fraction_quota_least_proof : forall t n, 0 < t -> t < 1 ->
+  let q := count_needed false (Some t) n in
+  (1 <= q)%Z /\ t * inject_Z n <= inject_Z q /\
+  (forall k, (1 <= k)%Z -> t * inject_Z n <= inject_Z k -> (q <= k)%Z).
+Proof.
+  intros t n P L q.
+  assert (E : thr_or (Some t) (count_default n) = t).
+  { unfold thr_or. destruct (Qeq_bool t 0) eqn:Z0; [| reflexivity].
+    apply Qeq_bool_iff in Z0. exfalso. lra. }
+  assert (Q : q = Z.max 1 (Qceiling (t * inject_Z n))).
+  { unfold q. apply (count_needed_fraction (Some t) n t E P L). }
+  rewrite Q. split; [lia |]. split.
+  - apply ceiling_le_iff. lia.
+  - intros k K1 K2. apply Z.max_lub_iff. split; [exact K1 | apply ceiling_le_iff; exact K2].
+Qed.
+
+(* lifted to histories: the share is a share of the CURRENT colony *)
+Lemma history_fraction_share_proof : forall st ops s sc o t,
+  In (s, sc, o) (trace false st ops) ->
+  c_strategy (s_cfg s) = ThresholdCount -> c_custom (s_cfg s) = Some t -> 0 < t -> t < 1 ->
+  let votes := collect (voters_of (s_colony s) sc) in
+  (is_reached o = true <->
+   (c_min_voters (s_cfg s) <= count_kind Permit votes + count_kind Block votes)%Z /\
+   (1 <= count_kind Permit votes)%Z /\
+   t <= inject_Z (count_kind Permit votes) / inject_Z (len (s_colony s))).
+Proof.
+  intros st ops s sc o t H S C P L votes. destruct (trace_sound _ _ _ _ _ _ H) as [_ ->].
+  fold votes. rewrite <- (ballot_len (s_colony s) sc). fold votes.
+  apply fraction_share_proof; assumption.
+Qed.
